@@ -267,7 +267,7 @@ def _run(ctx):
     else:
         dom3 = ctx.domain(
             "alone/depth3-core",
-            bound="every nested list of depth 3 with inner lengths 0..2 (2380 values) x container_ndim 1..3",
+            bound="every nested list of depth 3 with inner lengths 0..2 (183 values) x container_ndim 1..3",
             rule="as alone/depth<=2",
             exhaustive=True,
         )
@@ -329,7 +329,7 @@ def _run(ctx):
             if len(SP.flatten_depth(vx, nx)) * max(1, len(SP.flatten_depth(vy, ny))) > 40:
                 continue
             cases.append({"layer": "pair", "form": rnd.choice(FORMS), "vx": vx, "nx": nx, "vy": vy, "ny": ny})
-    for part in H.pmap(_w_e2e, H.chunks(cases, H.NPROCS * 3), nprocs=ctx.pick(6, H.NPROCS), chunksize=1):
+    for part in H.pmap(_w_e2e, H.chunks(cases, H.NPROCS * 3), serial=not ctx.thorough, chunksize=1):
         for c, f in part:
             nd = max(c.get("n", 1), c.get("nx", 1), c.get("ny", 1))
             dome.case(repr(sorted(c.items())), nontrivial=nd >= 2, sample=c)
